@@ -186,14 +186,19 @@ def nn_choices(a, b):
     return out
 
 
-def side(strategy, kp, E):
+def sides(strategy, kp, E):
+    """The admissible iterated/target sides: best = the smaller set is matched against the larger, worst = the larger
+    against the smaller; with equal sizes the statement does not say which, so both are admissible."""
     if strategy is ev.Strategy.knees:
-        return kp, E
+        return [(kp, E)]
     if strategy is ev.Strategy.expected:
-        return E, kp
+        return [(E, kp)]
+    if len(E) == len(kp):
+        return [(E, kp), (kp, E)]
+    small_first = (E, kp) if len(E) < len(kp) else (kp, E)
     if strategy is ev.Strategy.best:
-        return (E, kp) if len(E) <= len(kp) else (kp, E)
-    return (E, kp) if len(E) >= len(kp) else (kp, E)
+        return [small_first]
+    return [(small_first[1], small_first[0])]
 
 
 def achievable(a, choices, term):
@@ -261,18 +266,19 @@ def check_case(xs, ys, K, E, ts):
     kpf = [(float(p[0]), float(p[1])) for p in kp]
     for s in STRATS:
         key = key0 + ' strategy=%s' % s.value
-        a, b = side(s, kpf, Ef)
-        ch = nn_choices(a, b)
-        na = len(a)
         try:
             mae, mse, rmse, rmspe = [float(f(pts, Ka, Ea, s)) for f in (ev.mae, ev.mse, ev.rmse, ev.rmspe)]
         except Exception as e:  # noqa: BLE001
             out.append(Failure('evaluation.mae/mse/rmse/rmspe', lib.exc_kind(e), key, dict(base, strategy=s.value), repr(e), (n, 0)))
             continue
         c = dict(base, strategy=s.value)
-        e_mae = [v / (2.0 * na) for v in achievable(a, ch, lambda p, q: abs(p[0] - q[0]) + abs(p[1] - q[1]))]
-        e_mse = [v / (2.0 * na) for v in achievable(a, ch, lambda p, q: (p[0] - q[0]) ** 2 + (p[1] - q[1]) ** 2)]
-        e_pe = [math.sqrt(v / (2.0 * na)) for v in achievable(a, ch, lambda p, q: ((p[0] - q[0]) / (p[0] + 1e-16)) ** 2 + ((p[1] - q[1]) / (p[1] + 1e-16)) ** 2)]
+        e_mae, e_mse, e_pe = [], [], []
+        for a, b in sides(s, kpf, Ef):
+            ch = nn_choices(a, b)
+            na = len(a)
+            e_mae += [v / (2.0 * na) for v in achievable(a, ch, lambda p, q: abs(p[0] - q[0]) + abs(p[1] - q[1]))]
+            e_mse += [v / (2.0 * na) for v in achievable(a, ch, lambda p, q: (p[0] - q[0]) ** 2 + (p[1] - q[1]) ** 2)]
+            e_pe += [math.sqrt(v / (2.0 * na)) for v in achievable(a, ch, lambda p, q: ((p[0] - q[0]) / (p[0] + 1e-16)) ** 2 + ((p[1] - q[1]) / (p[1] + 1e-16)) ** 2)]
         if not near(mae, e_mae):
             out.append(Failure('evaluation.mae', 'not-the-nearest-neighbour-mean', key, c, 'mae=%r expected one of %s' % (mae, e_mae[:4]), (n, 0)))
         if not near(mse, e_mse):
